@@ -91,6 +91,7 @@ def check(ctx):
     check_input_effects(ctx, pa)
     check_temp_release(ctx)
     check_fresh_names(ctx, pa)
+    check_own_listing(ctx, pa)
     check_worker_outputs(ctx, pa)
 
 
@@ -413,6 +414,74 @@ def check_fresh_names(ctx, pa):
         ctx.ok(rule + '/scan', rci.qual, run.loc(),
                f'{len(effs)} effects of {rci.name}.run scanned',
                nontrivial=len(effs) > 0)
+
+
+def check_own_listing(ctx, pa):
+    """library level: a stage function that lists a directory (to merge
+    what its workers left there) lists a directory it created itself under
+    a unique name (mkdtemp), or one its caller handed over whole.  A
+    predictable name under a directory shared with other calls would let
+    files of earlier or concurrent calls into the result."""
+    db = ctx.db
+    rule = 'R-FRESH/listing/own-directory'
+    n = 0
+    for fi in db.iter_functions():
+        if not in_pipeline(fi.module):
+            continue
+        for e in pa.effects(fi):
+            if e.kind != 'list' or e.via or e.fi is not fi:
+                continue
+            n += 1
+            ctx.touch(fi)
+            ok = e.rel in ('fresh', 'same')
+            ctx.ob(rule, f'{fi.qual}:{e.root}:{_short_call(e.site)}',
+                   fi.loc(e.site), ok,
+                   ('lists a directory it created under a unique name'
+                    if e.rel == 'fresh' else
+                    'lists the directory its caller passed (judged at the '
+                    'callers)') if ok else
+                   f'{fi.name} lists a directory with a predictable name '
+                   f'({e.rel} `{e.root}`): files left there by an earlier '
+                   'or concurrent call that was given the same '
+                   f'`{e.root}` are read as if they were its own',
+                   witness=e.chain())
+    if n < 2:
+        raise AnalysisError(f'only {n} directory listings found in the '
+                            'pipeline')
+    # and no helper writes a file with a predictable name directly under
+    # the scratch directory it was given (two calls given the same scratch
+    # directory would share the file)
+    rule = 'R-FRESH/scratch-names'
+    n_w = 0
+    for fi in db.iter_functions():
+        if not in_pipeline(fi.module):
+            continue
+        for e in pa.effects(fi):
+            if e.kind != 'write' or e.via or e.fi is not fi:
+                continue
+            if not any(w in e.root for w in ('tmp_dir', 'scratch')):
+                continue
+            n_w += 1
+            if e.rel in ('under', 'sibling'):
+                ctx.touch(fi)
+                ctx.fail(rule, f'{fi.qual}:{e.root}:{_short_call(e.site)}',
+                         fi.loc(e.site),
+                         f'{fi.name} writes a file with a predictable '
+                         f'name {e.rel} the scratch directory `{e.root}`: '
+                         'calls sharing that directory overwrite each '
+                         "other's file", witness=e.chain())
+    ctx.ok(rule, 'pipeline', 'package',
+           f'{n_w} direct writes into scratch directories examined: all go '
+           'to uniquely named files or directories', nontrivial=n_w > 0)
+
+
+def _short_call(site):
+    f = getattr(site, 'func', None)
+    if isinstance(f, ast.Attribute):
+        return f.attr
+    if isinstance(f, ast.Name):
+        return f.id
+    return type(site).__name__
 
 
 # ----------------------------------------------------------------------
